@@ -172,6 +172,21 @@ impl Property for C08 {
         if rng.chance(1, 8) {
             starts.push(starts[0].clone());
         }
+        if rng.chance(1, 5) {
+            // a starting point with directory components (the -execdir batch of a depth-0
+            // entry runs in its parent)
+            let deep: Vec<&tree::Node> = spec.nodes.iter().filter(|n| n.path().contains('/') && !n.path().contains(tree::RAW_SENTINEL) && n.path().len() < 1000).collect();
+            if !deep.is_empty() {
+                let n = *rng.pick(&deep);
+                let p = n.path().to_string();
+                let st = if rng.chance(1, 3) { format!("./{p}") } else { p };
+                if rng.chance(1, 2) {
+                    starts = vec![st];
+                } else {
+                    starts.push(st);
+                }
+            }
+        }
         let fixed: Vec<String> = (0..rng.small(0, 3))
             .map(|_| rng.pick(&["-a", "fixed arg", "--", "x", "{}x", "+", ";;"]).to_string())
             .collect();
